@@ -480,6 +480,16 @@ def r4_recursion(ctx: Ctx) -> None:
             ctx.count("recursive_calls")
             ctx.check(g.dominated_by(g.node_containing(c), nexts), f"_parse_expression:recursive call @{c.lineno - pe.node.lineno}", "a token is consumed before recursing")
     ctx.floor("recursive_calls", 2)
+    # a method that calls itself on the same receiver with the same arguments makes no progress (`return self.get_table()` for
+    # `return self.parent.get_table()`): unbounded recursion, ending in RecursionError for every input that reaches it
+    for fn in ctx.repo.all_functions():
+        if fn.cls is None or not in_scope(fn) and not fn.module.name.startswith(("a816.symbols", "a816.cpu")):
+            continue
+        params = fn.params()[1:]
+        for c in calls_in(fn.node):
+            if call_name(c) == f"self.{fn.name}" and [unparse(a) for a in c.args] == params and not c.keywords:
+                ctx.count("self_calls")
+                ctx.fail(f"{fn.where}:{unparse(c)[:40]}", "calls itself on the same object with the same arguments: nothing changes between the calls, so the recursion never ends")
     # parent chains are finite: parent is assigned only in Scope.__init__ from an existing scope
     for fn in ctx.repo.all_functions():
         for n in walk_no_nested(fn.node):
